@@ -334,9 +334,13 @@ def gen_stats (rng, n):
     for r in reqs:
       while (r["xid"], r["type"]) in seen: r["xid"] = (r["xid"] + 1) & 0xffffffff
       seen.add((r["xid"], r["type"]))
-    mode = rng.choice(["seq", "seq", "inter", "abandon"])
+    mode = rng.choice(["seq", "seq", "inter", "abandon", "repeat"])
+    if mode == "repeat" and nreq > 1:
+      # the same request id (xid and type) used again after its reply completed
+      for r in reqs[1:]:
+        r["xid"] = reqs[0]["xid"]; r["type"] = reqs[0]["type"]
     order = []
-    if mode == "seq" or nreq == 1:
+    if mode in ("seq", "repeat") or nreq == 1:
       for i, r in enumerate(reqs):
         for _ in r["parts"]:
           order.append(i)
